@@ -1193,6 +1193,15 @@ func (o *Origins) load(u *ssa.UnOp) *Ex {
 	case *ssa.FreeVar:
 		// captured variable (by reference)
 		return o.reaching(r, path, u, u.Block(), instrIndex(u))
+	case *ssa.Parameter:
+		// a scalar handed in by pointer (a counter, a flag) that the function itself writes: a read behind the
+		// write sees the written value. (Only for pointers to basic types: a struct behind a pointer is written by
+		// every method called on it, and the rules name its fields as atoms.)
+		if pt, ok := r.Type().Underlying().(*types.Pointer); ok && len(path) == 0 {
+			if _, isBasic := pt.Elem().Underlying().(*types.Basic); isBasic && o.storesThrough(r) {
+				return o.reaching(r, path, u, u.Block(), instrIndex(u))
+			}
+		}
 	case *ssa.Global:
 		e := &Ex{K: "gval", S: o.globalName(r), V: r, Idx: -1}
 		var res *Ex = e
@@ -1206,6 +1215,18 @@ func (o *Origins) load(u *ssa.UnOp) *Ex {
 		return res
 	}
 	return o.pathExpr(u.X)
+}
+
+// storesThrough: the function stores directly through the pointer parameter.
+func (o *Origins) storesThrough(p *ssa.Parameter) bool {
+	if refs := p.Referrers(); refs != nil {
+		for _, r := range *refs {
+			if st, ok := r.(*ssa.Store); ok && st.Addr == ssa.Value(p) {
+				return true
+			}
+		}
+	}
+	return false
 }
 
 func (o *Origins) derivedSet(root ssa.Value) map[ssa.Value]bool {
@@ -1389,6 +1410,8 @@ func (o *Origins) reaching(root ssa.Value, path []pathElem, at ssa.Instruction, 
 			switch r := root.(type) {
 			case *ssa.FreeVar:
 				sources = append(sources, finish(o.capturedEntry(r, path), ovs))
+			case *ssa.Parameter:
+				sources = append(sources, finish(o.pathExpr(r), ovs))
 			default:
 				sources = append(sources, finish(mk("zero", "entry"), ovs))
 			}
